@@ -12,6 +12,7 @@
 #include <fcntl.h>
 #include <ftw.h>
 #include <poll.h>
+#include <pthread.h>
 #include <signal.h>
 #include <stdarg.h>
 #include <stdio.h>
@@ -33,7 +34,8 @@ int vchild_run(const char *sockpath, const char *flags, const char *tag,
                const char *snap, int argc, char **argv);
 
 #define NH 4
-#define HIGHFD 200
+static int HIGHFD = 200;  // harness descriptors live at [HIGHFD, hard limit - 2]
+static rlim_t g_hard_nofile;
 
 static const char *g_vchild, *g_scratch;
 static char g_cdir[600];
@@ -80,6 +82,7 @@ typedef struct {
   struct { unsigned s; uint64_t start, len; } seg[3][512];
   int nseg[3];
   int text, lazy_accept;
+  FILE *sfile;
   char dir[700];
   FILE *files[3];
   int handles[3];
@@ -366,6 +369,8 @@ static int sched_run(int64_t upto)
 static void finish_case(void);
 
 static int g_in_sinkcalls;
+static int g_nchild_before_start;
+static int g_faults_start_only;
 static char *g_sinkbuf;
 static void on_hang(const char *what)
 {
@@ -492,6 +497,7 @@ static int harness_fd(int fd)
       if (C[h].handles[s] == fd) return 1;
       if (C[h].files[s] && fileno(C[h].files[s]) == fd) return 1;
     }
+    if (C[h].sfile && fileno(C[h].sfile) == fd) return 1;
   }
   return 0;
 }
@@ -523,11 +529,114 @@ static void jfds(const char *key)
 static int move_high(int fd)
 {
   if (fd < 0) return fd;
+  // harness descriptors sit above any soft limit a case sets: lift the soft limit for the dup
+  struct rlimit rl, up;
+  getrlimit(RLIMIT_NOFILE, &rl);
+  up = rl;
+  up.rlim_cur = rl.rlim_max < 65536 ? rl.rlim_max : 65536;
+  setrlimit(RLIMIT_NOFILE, &up);
   int n = fcntl(fd, F_DUPFD_CLOEXEC, HIGHFD);
+  setrlimit(RLIMIT_NOFILE, &rl);
   if (n < 0) return fd;
   close(fd);
   return n;
 }
+
+
+// ------------------------------------------------------------------ misc helpers
+static int hexval(int c) { return c >= '0' && c <= '9' ? c - '0' : c >= 'a' && c <= 'f' ? c - 'a' + 10 : -1; }
+static char *unhex(const char *h)
+{
+  size_t n = strlen(h) / 2;
+  char *o = malloc(n + 1);
+  for (size_t i = 0; i < n; i++) o[i] = (char) (hexval(h[2 * i]) * 16 + hexval(h[2 * i + 1]));
+  o[n] = 0;
+  return o;
+}
+// "-" or comma separated hex strings -> NULL-terminated vector (first `skip` slots left free)
+static char **unhex_list(const char *spec, int skip, int *count)
+{
+  int n = 0;
+  if (strcmp(spec, "-") != 0) {
+    n = 1;
+    for (const char *p = spec; *p; p++)
+      if (*p == ',') n++;
+  }
+  char **v = calloc((size_t) (n + skip + 1), sizeof(char *));
+  char *dup = strdup(spec), *save = NULL;
+  int i = 0;
+  if (n > 0) {
+    // strtok would skip empty items: walk manually
+    char *p = dup;
+    for (;;) {
+      char *comma = strchr(p, ',');
+      if (comma) *comma = 0;
+      v[skip + i++] = unhex(p);
+      if (!comma) break;
+      p = comma + 1;
+    }
+  }
+  (void) save;
+  free(dup);
+  if (count) *count = i;
+  return v;
+}
+
+typedef struct {
+  sigset_t mask;
+  unsigned long act_hash;
+  char cwd[4200];
+  char **envp;
+  unsigned long env_hash;
+} caller_state;
+
+extern char **environ;
+static unsigned long hash_bytes(unsigned long h, const void *p, size_t n)
+{
+  const unsigned char *b = p;
+  for (size_t i = 0; i < n; i++) h = (h ^ b[i]) * 1099511628211UL;
+  return h;
+}
+static void caller_snapshot(caller_state *cs)
+{
+  memset(cs, 0, sizeof *cs);
+  pthread_sigmask(SIG_SETMASK, NULL, &cs->mask);
+  unsigned long h = 1469598103934665603UL;
+  for (int sig = 1; sig < 65; sig++) {
+    struct sigaction sa;
+    memset(&sa, 0, sizeof sa);
+    if (sigaction(sig, NULL, &sa) == 0) {
+      void *hp = (void *) sa.sa_handler;
+      h = hash_bytes(h, &hp, sizeof hp);
+      h = hash_bytes(h, &sa.sa_flags, sizeof sa.sa_flags);
+      h = hash_bytes(h, &sa.sa_mask, sizeof(unsigned long));
+    }
+  }
+  cs->act_hash = h;
+  if (!getcwd(cs->cwd, sizeof cs->cwd)) strcpy(cs->cwd, "?");
+  cs->envp = environ;
+  h = 1469598103934665603UL;
+  for (char **e = environ; e && *e; e++) h = hash_bytes(h, *e, strlen(*e) + 1);
+  cs->env_hash = h;
+}
+static unsigned long mask_bits(const sigset_t *m)
+{
+  unsigned long b = 0;
+  for (int s = 1; s < 65; s++)
+    if (sigismember(m, s) == 1) b |= 1UL << (s - 1);
+  return b;
+}
+
+static const char *kids_state(void)
+{
+  siginfo_t si;
+  si.si_pid = 0;
+  int r = waitid(P_ALL, 0, &si, WEXITED | WNOHANG | WNOWAIT);
+  if (r < 0) return errno == ECHILD ? "none" : "err";
+  return si.si_pid ? "zombie" : "running";
+}
+
+static void dummy_handler(int s) { (void) s; }
 
 // ------------------------------------------------------------------ parsing helpers
 static char *tok[512];
@@ -656,6 +765,7 @@ static void do_runex(int h, child_t *c, const char **argv, reproc_options o, con
   sinks_setup(&ss, c, so, se);
   c->started = 1;
   c->lazy_accept = 1 + W->nchild;  // accept once the library has forked another child
+  g_nchild_before_start = W->nchild;
   op_begin("RN", h);
   g_sinkcalls = 0;
   g_sinklen = 0;
@@ -706,6 +816,7 @@ static void setup_child_dir(child_t *c, int h, const char *flags)
 
 static int accept_child(child_t *c)
 {
+  if ((int) W->nchild == g_nchild_before_start) return -1;  // the library never forked: nobody will connect
   // wait (real time) for the helper to connect; give up early when the newest child the
   // library forked is already gone (exec failed)
   int r = 0;
@@ -742,6 +853,62 @@ static int accept_child(child_t *c)
   return 0;
 }
 
+
+// Ask the helper for its view of itself (fd table before it opened anything, signal state,
+// cwd, argv, environment) and log it as one event.
+static void request_ident(child_t *c)
+{
+  if (c->csock < 0) return;
+  if (msg_send(c->csock, "I", 1) < 0) return;
+  uint32_t n = 0;
+  char *m = msg_recv(c->csock, &n);
+  if (!m) return;
+  fprintf(L, "{\"ev\":\"ident\",\"h\":%d,\"fds\":[", (int) (c - C));
+  int first = 1;
+  char *save = NULL;
+  // pass 1: fds
+  char *copy = strdup(m);
+  for (char *line = strtok_r(copy, "\n", &save); line; line = strtok_r(NULL, "\n", &save)) {
+    int fd, fl, fdfl;
+    unsigned long long dev, ino, rdev;
+    unsigned mode;
+    if (sscanf(line, "fd %d %llu %llu %llu %o %d %d", &fd, &dev, &ino, &rdev, &mode, &fl, &fdfl) == 7) {
+      fprintf(L, "%s[%d,%llu,%llu,%llu,%u,%d,%d]", first ? "" : ",", fd, dev, ino, rdev, mode, fl, fdfl);
+      first = 0;
+    }
+  }
+  free(copy);
+  fprintf(L, "],\"sig\":{");
+  first = 1;
+  copy = strdup(m);
+  for (char *line = strtok_r(copy, "\n", &save); line; line = strtok_r(NULL, "\n", &save)) {
+    char name[16], val[40];
+    if (sscanf(line, "sig %15s %39s", name, val) == 2) {
+      fprintf(L, "%s\"%s\":\"%s\"", first ? "" : ",", name, val);
+      first = 0;
+    }
+  }
+  free(copy);
+  fprintf(L, "},");
+  const char *keys[3] = { "cwd", "arg", "env" };
+  for (int k = 0; k < 3; k++) {
+    fprintf(L, "\"%s\":[", keys[k]);
+    first = 1;
+    copy = strdup(m);
+    size_t kl = strlen(keys[k]);
+    for (char *line = strtok_r(copy, "\n", &save); line; line = strtok_r(NULL, "\n", &save)) {
+      if (strncmp(line, keys[k], kl) == 0 && (line[kl] == ' ' || line[kl] == 0)) {
+        fprintf(L, "%s\"%s\"", first ? "" : ",", line[kl] ? line + kl + 1 : "");
+        first = 0;
+      }
+    }
+    free(copy);
+    fprintf(L, "]%s", k < 2 ? "," : "");
+  }
+  fprintf(L, "}\n");
+  free(m);
+}
+
 static void do_start(int h)
 {
   child_t *c = &C[h];
@@ -749,8 +916,9 @@ static void do_start(int h)
   memset(&o, 0, sizeof o);
   const char *prog = "vc";
   char flags[128] = "";
-  int argvnull = 0, usewd = 0;
-  const char *runex = NULL;
+  int argvnull = 0, usewd = 0, rfile = 0, rpath = 0, want_ident = 0, nofile = 0;
+  const char *runex = NULL, *argvx = NULL, *envx = NULL, *wdx = NULL, *progx = NULL;
+  const char *pathmode = NULL, *handlemode = NULL;
   long inputsz = -1;
   static const char *extra[40];
   static char extrabuf[40][32];
@@ -794,6 +962,19 @@ static void do_start(int h)
     else if ((v = kv(t, "argvnull"))) argvnull = atoi(v);
     else if ((v = kv(t, "text"))) { c->text = atoi(v); if (c->text) strcat(flags, " text"); }
     else if ((v = kv(t, "runex"))) runex = v;
+    else if ((v = kv(t, "nofile"))) nofile = atoi(v);
+    else if ((v = kv(t, "rfile"))) rfile = atoi(v);
+    else if ((v = kv(t, "rpath"))) rpath = atoi(v);
+    else if ((v = kv(t, "argvx"))) argvx = v;
+    else if ((v = kv(t, "envx"))) envx = v;
+    else if ((v = kv(t, "wdx"))) wdx = v;
+    else if ((v = kv(t, "progx"))) progx = v;
+    else if ((v = kv(t, "ident"))) want_ident = atoi(v);
+    else if ((v = kv(t, "pathmode"))) pathmode = v;
+    else if ((v = kv(t, "handlemode"))) handlemode = v;
+    else if ((v = kv(t, "hin"))) o.redirect.in.handle = atoi(v) ? -2 : 0;
+    else if ((v = kv(t, "hout"))) o.redirect.out.handle = atoi(v) ? -2 : 0;
+    else if ((v = kv(t, "herr"))) o.redirect.err.handle = atoi(v) ? -2 : 0;
   }
   if (tp > 0 && tp <= ntok && strcmp(tok[tp - 1], ";") == 0) tp--;
   if (strcmp(c->term, "ign") == 0) strcat(flags, " ign15");
@@ -811,11 +992,18 @@ static void do_start(int h)
   static char paths[3][800];
   for (int s = 0; s < 3; s++) {
     snprintf(paths[s], sizeof paths[s], "%s/redir%d", c->dir, s);
+    if (pathmode && !strcmp(pathmode, "missing")) snprintf(paths[s], sizeof paths[s], "%s/nodir/redir%d", c->dir, s);
+    if (pathmode && !strcmp(pathmode, "dir")) snprintf(paths[s], sizeof paths[s], "%s", c->dir);
     if (rd[s]->type == REPROC_REDIRECT_PATH) rd[s]->path = paths[s];
-    if (rd[s]->type == REPROC_REDIRECT_HANDLE) {
+    if (rd[s]->type == REPROC_REDIRECT_HANDLE || rd[s]->handle == -2) {
       if (c->handles[s] < 0)
         c->handles[s] = move_high(open(paths[s], O_RDWR | O_CREAT | O_CLOEXEC, 0644));
       rd[s]->handle = c->handles[s];
+      if (handlemode && !strcmp(handlemode, "closed")) {
+        close(c->handles[s]);
+        rd[s]->handle = c->handles[s];
+        c->handles[s] = -1;
+      }
     }
     if (rd[s]->type == REPROC_REDIRECT_FILE) {
       if (!c->files[s]) {
@@ -824,6 +1012,19 @@ static void do_start(int h)
       }
       rd[s]->file = c->files[s];
     }
+  }
+  static char spath[800];
+  if (rpath) {
+    snprintf(spath, sizeof spath, "%s/redir_short", c->dir);
+    o.redirect.path = spath;
+  }
+  if (rfile) {
+    if (!c->sfile) {
+      snprintf(spath, sizeof spath, "%s/redir_short", c->dir);
+      int fd = move_high(open(spath, O_RDWR | O_CREAT | O_CLOEXEC, 0644));
+      c->sfile = fdopen(fd, "w");
+    }
+    o.redirect.file = c->sfile;
   }
   // effective types for bookkeeping (documented defaults)
   for (int s = 0; s < 3; s++) {
@@ -851,13 +1052,43 @@ static void do_start(int h)
     o.working_directory = wd;
   }
 
-  char progpath[900];
-  if (!strcmp(prog, "vc")) snprintf(progpath, sizeof progpath, "%s/vc", c->dir);
+  if (usewd == 2) {
+    snprintf(wd, sizeof wd, "%s/no/such/dir", c->dir);
+    o.working_directory = wd;
+  } else if (usewd == 3) {
+    snprintf(wd, sizeof wd, "%s/vc.cfg", c->dir);
+    o.working_directory = wd;
+  }
+  if (wdx) o.working_directory = unhex(wdx);
+  static char progpath[70000];
+  if (progx) {
+    char *p = unhex(progx);
+    snprintf(progpath, sizeof progpath, "%s", p);
+    free(p);
+  } else if (!strcmp(prog, "vc")) snprintf(progpath, sizeof progpath, "%s/vc", c->dir);
+  else if (!strcmp(prog, "interp")) {
+    snprintf(progpath, sizeof progpath, "%s/script", c->dir);
+    FILE *sf = fopen(progpath, "w");
+    fprintf(sf, "#!/nonexistent/interpreter\n");
+    fclose(sf);
+    chmod(progpath, 0755);
+  } else if (!strcmp(prog, "long")) {
+    memset(progpath, 'x', 5000);
+    progpath[0] = '/';
+    progpath[5000] = 0;
+  } else if (!strcmp(prog, "empty")) progpath[0] = 0;
   else if (!strcmp(prog, "missing")) snprintf(progpath, sizeof progpath, "%s/nope", c->dir);
   else if (!strcmp(prog, "dir")) snprintf(progpath, sizeof progpath, "%s", c->dir);
   else if (!strcmp(prog, "noexec")) snprintf(progpath, sizeof progpath, "%s/vc.cfg", c->dir);
   else snprintf(progpath, sizeof progpath, "%s", prog);
-  const char *argv[] = { progpath, "a1", NULL };
+  const char *argv_default[] = { progpath, "a1", NULL };
+  const char **argv = argv_default;
+  if (argvx) {
+    char **v = unhex_list(argvx, 1, NULL);
+    v[0] = progpath;
+    argv = (const char **) v;
+  }
+  if (envx) o.env.extra = (const char *const *) unhex_list(envx, 0, NULL);
 
   if (runex) {
     // RN: reproc_run_ex(argv, options, sinks): runex=<outsink>,<errsink> (d | s<pre> | c | c<k>:<ret>)
@@ -865,10 +1096,22 @@ static void do_start(int h)
     free(input);
     return;
   }
+  caller_state before, after;
+  caller_snapshot(&before);
+  struct rlimit rl_old, rl_new;
+  getrlimit(RLIMIT_NOFILE, &rl_old);
+  if (nofile > 0) {
+    rl_new = rl_old;
+    rl_new.rlim_cur = (rlim_t) nofile;
+    setrlimit(RLIMIT_NOFILE, &rl_new);
+  }
   op_begin("S", h);
+  g_nchild_before_start = W->nchild;
   w_in_start = 1;
   int r = reproc_start(c->p, (o.fork || argvnull) ? NULL : argv, o);
   w_in_start = 0;
+  if (nofile > 0 && w_side == 0) setrlimit(RLIMIT_NOFILE, &rl_old);
+  if (w_side == 0 && g_faults_start_only) W->faults_disabled = 1;
   if (r == 0 && w_side == 1) {
     // child side of a fork-mode start: only destroy is allowed; then act as the helper
     W->inchild_ret = 0;
@@ -886,7 +1129,27 @@ static void do_start(int h)
     hello = accept_child(c) == 0 ? 1 : -1;
   }
   free(input);
-  op_end_fmt(r, "\"hello\":%d,\"pid\":%d", hello, c->pid);
+  caller_snapshot(&after);
+  const char *kids = kids_state();
+  char libfds[600] = "";
+  {
+    int fds[40];
+    int n = wrap_owned_fds(fds, 40);
+    for (int i = 0; i < n; i++) {
+      struct stat st;
+      if (fstat(fds[i], &st) < 0) continue;
+      char b[64];
+      snprintf(b, sizeof b, "%s[%d,%llu,%d]", libfds[0] ? "," : "", fds[i],
+               (unsigned long long) st.st_ino, fcntl(fds[i], F_GETFL));
+      if (strlen(libfds) + strlen(b) + 1 < sizeof libfds) strcat(libfds, b);
+    }
+  }
+  if (hello == 1 && want_ident) request_ident(c);
+  op_end_fmt(r, "\"hello\":%d,\"pid\":%d,\"kids\":\"%s\",\"caller\":{\"mask\":[%lu,%lu],\"act\":%d,"
+                "\"cwd\":%d,\"env\":%d},\"lib_fds\":[%s]",
+             hello, c->pid, kids, mask_bits(&before.mask), mask_bits(&after.mask),
+             before.act_hash != after.act_hash, strcmp(before.cwd, after.cwd) != 0,
+             before.envp != after.envp || before.env_hash != after.env_hash, libfds);
 }
 
 static void op_read(int h, int stream, long size, int probe)
@@ -936,6 +1199,8 @@ static void run_script(void)
       setrlimit(RLIMIT_NOFILE, &rl);
     } else if (!strcmp(t, "traceall")) {
       g_traceall = 1;
+    } else if (!strcmp(t, "faults1")) {
+      g_faults_start_only = 1;  // faults apply to the first reproc_start only
     } else if (!strcmp(t, "epoch")) {
       w_epoch_ms = 1700000000000LL + nextlong(0);
     } else if (!strcmp(t, "F")) {
@@ -1177,6 +1442,132 @@ static void run_script(void)
       op_begin("DN", -1);
       reproc_t *r = reproc_destroy(NULL);
       op_end_fmt(r == NULL ? 0 : 1, NULL);
+    } else if (!strcmp(t, "CLOSE012")) {
+      int mask = (int) nextlong(0);
+      for (int i = 0; i < 3; i++)
+        if (mask & (1 << i)) close(i);
+    } else if (!strcmp(t, "OPENFDS")) {
+      // OPENFDS n seed incl_max : open n extra descriptors at random numbers (mixed kinds,
+      // half without close-on-exec); logs the list
+      int n = (int) nextlong(0);
+      uint32_t x = (uint32_t) nextlong(1) * 2654435761u + 7;
+      int inclmax = (int) nextlong(0);
+      struct rlimit rl;
+      getrlimit(RLIMIT_NOFILE, &rl);
+      int lim = (int) rl.rlim_cur;
+      fprintf(L, "{\"openfds\":[");
+      int first = 1;
+      for (int i = 0; i < n; i++) {
+        x ^= x << 13; x ^= x >> 17; x ^= x << 5;
+        int target = (inclmax && i == 0) ? lim - 1 : 3 + (int) (x % (unsigned) (lim - 3));
+        if (target >= HIGHFD && target != lim - 1) target = 3 + (int) (x % (unsigned) (HIGHFD - 3));
+        if (fcntl(target, F_GETFD) >= 0) continue;  // taken
+        int src;
+        int kind = (x >> 8) % 3;
+        if (kind == 0) src = open("/dev/null", O_RDWR);
+        else if (kind == 1) {
+          int pp[2];
+          if (pipe(pp) < 0) continue;
+          src = pp[0];
+          close(pp[1]);
+        } else src = socket(AF_UNIX, SOCK_STREAM, 0);
+        if (src < 0) continue;
+        int cloexec = (x >> 12) & 1;
+        int got = cloexec ? dup3(src, target, O_CLOEXEC) : dup2(src, target);
+        if (src != target) close(src);
+        if (got < 0) continue;
+        fprintf(L, "%s[%d,%d]", first ? "" : ",", target, cloexec);
+        first = 0;
+      }
+      fprintf(L, "],\"limit\":%d}\n", lim);
+    } else if (!strcmp(t, "ENV")) {
+      // ENV n seed : replace the parent's environment by n random entries
+      int n = (int) nextlong(0);
+      uint32_t x = (uint32_t) nextlong(1) * 2654435761u + 3;
+      char **e = calloc((size_t) n + 1, sizeof(char *));
+      for (int i = 0; i < n; i++) {
+        x ^= x << 13; x ^= x >> 17; x ^= x << 5;
+        int len = (int) (x % 40);
+        char *v = malloc((size_t) len + 24);
+        int k = snprintf(v, 24, "K%d=", i);
+        for (int j = 0; j < len; j++) {
+          x = x * 1103515245u + 12345u;
+          unsigned char ch = (unsigned char) (1 + (x >> 16) % 255);
+          v[k + j] = (char) ch;
+        }
+        v[k + len] = 0;
+        e[i] = v;
+      }
+      environ = e;
+      fprintf(L, "{\"env_set\":[");
+      for (int i = 0; i < n; i++) {
+        fprintf(L, "%s\"", i ? "," : "");
+        for (char *p = e[i]; *p; p++) fprintf(L, "%02x", (unsigned char) *p);
+        fprintf(L, "\"");
+      }
+      fprintf(L, "]}\n");
+    } else if (!strcmp(t, "MKDIRS") || !strcmp(t, "CHDIR")) {
+      const char *hx = nexttok();
+      char *p = unhex(hx ? hx : "");
+      int r = 0;
+      if (t[0] == 'M') {
+        // relative components are created one at a time so paths beyond PATH_MAX work
+        char *q = p;
+        if (*q == '/') {
+          if (chdir("/") < 0) r = -errno;
+          q++;
+        }
+        char *save = NULL;
+        for (char *comp = strtok_r(q, "/", &save); comp; comp = strtok_r(NULL, "/", &save)) {
+          mkdir(comp, 0755);
+          if (chdir(comp) < 0) {
+            r = -errno;
+            break;
+          }
+        }
+      } else if (chdir(p) < 0) r = -errno;
+      fprintf(L, "{\"%s\":%d}\n", t, r);
+      free(p);
+    } else if (!strcmp(t, "MASK")) {
+      const char *hx = nexttok();
+      unsigned long bits = hx ? strtoul(hx, NULL, 16) : 0;
+      sigset_t m;
+      sigemptyset(&m);
+      for (int sgn = 1; sgn < 65; sgn++)
+        if (bits & (1UL << (sgn - 1))) sigaddset(&m, sgn);
+      pthread_sigmask(SIG_SETMASK, &m, NULL);
+    } else if (!strcmp(t, "SIGACT")) {
+      int sgn = (int) nextlong(1);
+      int how = (int) nextlong(0);
+      struct sigaction sa;
+      memset(&sa, 0, sizeof sa);
+      sa.sa_handler = how == 1 ? SIG_IGN : how == 2 ? dummy_handler : SIG_DFL;
+      if (sgn != SIGPIPE || how != 0) sigaction(sgn, &sa, NULL);
+    } else if (!strcmp(t, "LINKVC")) {
+      // LINKVC h <hex file path> <tag> : another copy of the helper whose cfg points at handle h's socket
+      int h = (int) nextlong(0);
+      const char *hx = nexttok();
+      const char *tag = nexttok();
+      char *p = unhex(hx ? hx : "");
+      child_t *c = &C[h];
+      if (c->lsock < 0) setup_child_dir(c, h, "");
+      unlink(p);
+      int r = link(g_vchild, p);
+      char cfg[4300];
+      char *slash = strrchr(p, '/');
+      {
+        if (slash) *slash = 0;
+        snprintf(cfg, sizeof cfg, "%s/vc.cfg", slash ? p : ".");
+        FILE *f = fopen(cfg, "w");
+        if (f) {
+          fprintf(f, "%s/s\n\n%s\n", c->dir, tag ? tag : "x");
+          fclose(f);
+        }
+      }
+      fprintf(L, "{\"LINKVC\":%d}\n", r < 0 ? -errno : 0);
+      free(p);
+    } else if (!strcmp(t, "KIDS")) {
+      fprintf(L, "{\"kids\":\"%s\"}\n", kids_state());
     } else if (!strcmp(t, "SNAP")) {
       fprintf(L, "{\"snap\":1,");
       jfds("fds");
@@ -1203,6 +1594,25 @@ static void finish_case(void)
   for (int i = 0; i < W->nfault; i++)
     fprintf(L, "%s[%d,\"%s\",%d,%d,%d]", i ? "," : "", W->fault[i].side,
             wfn_name[W->fault[i].fn], W->fault[i].k, W->fault[i].err, W->fault[i].fired);
+  fprintf(L, "],\"kids\":\"%s\",\"user_objs\":[", kids_state());
+  {
+    int first = 1;
+    for (int h = 0; h < NH; h++)
+      for (int st = 0; st < 3; st++) {
+        if (C[h].used && C[h].handles[st] >= 0) {
+          fprintf(L, "%s[%d,%d,\"handle\",%d]", first ? "" : ",", h, st, fcntl(C[h].handles[st], F_GETFD) >= 0);
+          first = 0;
+        }
+        if (C[h].used && C[h].files[st]) {
+          fprintf(L, "%s[%d,%d,\"file\",%d]", first ? "" : ",", h, st, fcntl(fileno(C[h].files[st]), F_GETFD) >= 0);
+          first = 0;
+        }
+      }
+    for (int st = 0; st < 3; st++) {
+      fprintf(L, "%s[-1,%d,\"std\",%d]", first ? "" : ",", st, fcntl(st, F_GETFD) >= 0);
+      first = 0;
+    }
+  }
   fprintf(L, "],");
   jgt();
   fprintf(L, ",");
@@ -1246,6 +1656,7 @@ static void run_case(char *script, int logfd)
   getrlimit(RLIMIT_NOFILE, &rl);
   rl.rlim_cur = 256;
   setrlimit(RLIMIT_NOFILE, &rl);
+  if (chdir(g_cdir) < 0) {}
   fprintf(L, "{\"snap\":0,");
   jfds("fds");
   fprintf(L, "}\n");
@@ -1271,6 +1682,13 @@ int main(int argc, char **argv)
   }
   g_vchild = argv[1];
   g_scratch = argv[2];
+  {
+    struct rlimit rl;
+    getrlimit(RLIMIT_NOFILE, &rl);
+    g_hard_nofile = rl.rlim_max < 65536 ? rl.rlim_max : 65536;
+    HIGHFD = (int) g_hard_nofile - 100;
+    if (HIGHFD < 200) HIGHFD = 200;
+  }
   wrap_init();
   {
     char tmp[600];
